@@ -349,6 +349,10 @@ func report2(o opts, s *prep.Scratch, probe string, g genOut, m1 *merged, m2 *e2
 		switch it.kind {
 		case "world":
 			outp, code := runReplay(s, path)
+			if code == 10 {
+				fmt.Printf("NOTE: %s %s not counted: in-process state artefact [replay=%s]\n", o.prop, sig, path)
+				continue
+			}
 			if code != 1 || !strings.Contains(outp, "REPRODUCED") || strings.Contains(outp, "NOT-REPRODUCED") {
 				fatal2("violation %s (%s) did not reproduce from %s in a fresh process:\n%s", o.prop, sig, path, outp)
 			}
